@@ -117,6 +117,12 @@ pub struct TransportHandle {
     periodic_tasks_handle: Arc<RwLock<Option<JoinHandle<()>>>>,
     recv_handles: Arc<RwLock<Vec<JoinHandle<()>>>>,
     listener_handle: Arc<RwLock<Option<JoinHandle<()>>>>,
+    #[cfg(feature = "verif-hooks")]
+    verif_net: Option<Arc<dyn verif::MemNet>>,
+    #[cfg(feature = "verif-hooks")]
+    verif_transport_id: Option<String>,
+    #[cfg(feature = "verif-hooks")]
+    verif_inject_tx: std::sync::Mutex<Option<tokio::sync::mpsc::Sender<(ant_quic::nat_traversal_api::PeerId, Vec<u8>)>>>,
 }
 
 // ============================================================================
@@ -262,6 +268,12 @@ impl TransportHandle {
             periodic_tasks_handle,
             recv_handles: Arc::new(RwLock::new(Vec::new())),
             listener_handle: Arc::new(RwLock::new(None)),
+            #[cfg(feature = "verif-hooks")]
+            verif_net: None,
+            #[cfg(feature = "verif-hooks")]
+            verif_transport_id: None,
+            #[cfg(feature = "verif-hooks")]
+            verif_inject_tx: std::sync::Mutex::new(None),
         })
     }
 
@@ -318,6 +330,12 @@ impl TransportHandle {
             periodic_tasks_handle: Arc::new(RwLock::new(None)),
             recv_handles: Arc::new(RwLock::new(Vec::new())),
             listener_handle: Arc::new(RwLock::new(None)),
+            #[cfg(feature = "verif-hooks")]
+            verif_net: None,
+            #[cfg(feature = "verif-hooks")]
+            verif_transport_id: None,
+            #[cfg(feature = "verif-hooks")]
+            verif_inject_tx: std::sync::Mutex::new(None),
         })
     }
 }
@@ -337,6 +355,10 @@ impl TransportHandle {
     /// This is the ID used in `P2PEvent::Message.source`, `connected_peers()`,
     /// and `send_message()`. It differs from `peer_id()` which is the app-level ID.
     pub fn transport_peer_id(&self) -> Option<String> {
+        #[cfg(feature = "verif-hooks")]
+        if let Some(id) = &self.verif_transport_id {
+            return Some(id.clone());
+        }
         if let Some(ref v4) = self.dual_node.v4 {
             return Some(ant_peer_id_to_string(&v4.our_peer_id()));
         }
@@ -467,6 +489,22 @@ impl TransportHandle {
         })?;
 
         let normalized_addr = normalize_wildcard_to_loopback(socket_addr);
+        #[cfg(feature = "verif-hooks")]
+        if let Some(net) = &self.verif_net {
+            let me = self.verif_transport_id.clone().unwrap_or_default();
+            return match net.connect(&me, normalized_addr).await {
+                Some(peer_id) => {
+                    self.verif_accept(&peer_id, address).await;
+                    Ok(peer_id)
+                }
+                None => Err(P2PError::Transport(
+                    crate::error::TransportError::ConnectionFailed {
+                        addr: normalized_addr,
+                        reason: "verif: no such peer".into(),
+                    },
+                )),
+            };
+        }
         let addr_list = vec![normalized_addr];
 
         let peer_id = match tokio::time::timeout(
@@ -619,6 +657,13 @@ impl TransportHandle {
             raw_data_len
         );
 
+        #[cfg(feature = "verif-hooks")]
+        if let Some(net) = &self.verif_net {
+            let me = self.verif_transport_id.clone().unwrap_or_default();
+            return net.send(&me, peer_id, message_data).await.map_err(|e| {
+                P2PError::Transport(crate::error::TransportError::StreamError(e.into()))
+            });
+        }
         let send_fut = self
             .dual_node
             .send_to_peer_string_optimized(peer_id, &message_data);
@@ -935,6 +980,10 @@ impl TransportHandle {
         }
         if let Some(v4) = self.dual_node.v4.as_ref() {
             handles.push(v4.spawn_recv_task(tx.clone(), self.shutdown.clone()));
+        }
+        #[cfg(feature = "verif-hooks")]
+        if let Ok(mut slot) = self.verif_inject_tx.lock() {
+            *slot = Some(tx.clone());
         }
         drop(tx);
 
@@ -1446,4 +1495,65 @@ impl TransportHandle {
     pub(crate) async fn inject_active_connection(&self, peer_id: PeerId) {
         self.active_connections.write().await.insert(peer_id);
     }
+}
+
+#[cfg(feature = "verif-hooks")]
+pub mod verif {
+    use std::net::SocketAddr;
+    #[async_trait::async_trait]
+    pub trait MemNet: Send + Sync {
+        async fn connect(&self, from: &str, addr: SocketAddr) -> Option<String>;
+        async fn send(&self, from: &str, to: &str, frame: Vec<u8>) -> std::result::Result<(), String>;
+    }
+}
+
+#[cfg(feature = "verif-hooks")]
+impl TransportHandle {
+    pub fn verif_new_mem(peer_id: PeerId, transport_id: String, net: Arc<dyn verif::MemNet>, connection_timeout: Duration) -> Self {
+        let (event_tx, _) = broadcast::channel(crate::DEFAULT_EVENT_CHANNEL_CAPACITY);
+        let dual_node = Arc::new(DualStackNetworkNode::<ant_quic::P2pLinkTransport>::with_transports(None, None));
+        Self {
+            peer_id,
+            dual_node,
+            peers: Arc::new(RwLock::new(HashMap::new())),
+            active_connections: Arc::new(RwLock::new(HashSet::new())),
+            event_tx,
+            listen_addrs: RwLock::new(Vec::new()),
+            rate_limiter: Arc::new(RateLimiter::new(RateLimitConfig::default())),
+            active_requests: Arc::new(RwLock::new(HashMap::new())),
+            geo_provider: Arc::new(BgpGeoProvider::new()),
+            shutdown: CancellationToken::new(),
+            resource_manager: None,
+            connection_timeout,
+            stale_peer_threshold: Duration::from_secs(3600),
+            connection_monitor_handle: Arc::new(RwLock::new(None)),
+            keepalive_handle: Arc::new(RwLock::new(None)),
+            periodic_tasks_handle: Arc::new(RwLock::new(None)),
+            recv_handles: Arc::new(RwLock::new(Vec::new())),
+            listener_handle: Arc::new(RwLock::new(None)),
+            verif_net: Some(net),
+            verif_transport_id: Some(transport_id),
+            verif_inject_tx: std::sync::Mutex::new(None),
+        }
+    }
+    pub async fn verif_accept(&self, peer_id: &str, addr: &str) {
+        let peer_info = PeerInfo {
+            peer_id: peer_id.to_string(),
+            addresses: vec![addr.to_string()],
+            connected_at: Instant::now(),
+            last_seen: Instant::now(),
+            status: ConnectionStatus::Connected,
+            protocols: vec![],
+            heartbeat_count: 0,
+        };
+        self.peers.write().await.insert(peer_id.to_string(), peer_info);
+        self.active_connections.write().await.insert(peer_id.to_string());
+        self.send_event(P2PEvent::PeerConnected(peer_id.to_string()));
+    }
+    pub async fn verif_inject(&self, from: &str, bytes: Vec<u8>) -> bool {
+        let Ok(pid) = crate::transport::ant_quic_adapter::string_to_ant_peer_id(from) else { return false; };
+        let tx = self.verif_inject_tx.lock().ok().and_then(|g| g.clone());
+        match tx { Some(tx) => tx.send((pid, bytes)).await.is_ok(), None => false }
+    }
+    pub async fn verif_active_requests_len(&self) -> usize { self.active_requests.read().await.len() }
 }
